@@ -31,7 +31,9 @@ type Case struct {
 	Mode  string            `json:"mode"`  // "all" | "testfs" | "paging" | "files"
 }
 
-var segs = []string{"a", "b", "c", "d.txt", "e.html", ".h", "..x", "é", "日本", "a.b.c", "x-y", "Z", "a b", "0"}
+// the first four are used for directories; later names extend them with bytes below and above '/' so that
+// a sibling can share a prefix with a directory name ("a/…" next to "ab", "a1", "a-", "a.b.c")
+var segs = []string{"a", "b", "c", "ab", "a1", "a-", "aé", "b2", "c_", "d.txt", "e.html", ".h", "..x", "é", "日本", "a.b.c", "x-y", "Z", "a b", "0", "abc"}
 
 func genFiles(t *rapid.T) map[string]string {
 	files := map[string]string{}
